@@ -5,6 +5,7 @@ From Coq Require Import List NArith ZArith Bool Arith String.
 Import ListNotations.
 Require Import Scan Parse Construct ConstructLemmas.
 Require ComposerTotal ComposerSpec.
+Require Represent SerializeGrammar SerializeAnchors.
 
 (* KIND C13_alias_is_identity : U *)
 (* in EVERY composer state: an alias to a defined anchor yields the anchored node itself (same id) - no node is allocated, store and anchors unchanged *)
@@ -100,6 +101,30 @@ Example C13_numbering_nonvacuous :
                     option_map n_kind (nth_error (store s') 2) = Some (NMap [(3, 1)]) /\ option_map n_kind (nth_error (store s') 4) = Some (NSeq [1])
   | _ => False end.
 Proof. vm_compute. repeat split; reflexivity. Qed.
+
+(* KIND C13_dumped_aliases_have_anchors : U *)
+(* the dump side of "aliases mean identity": for EVERY value, heap of containers (sharing and cycles) and representer option set, every ALIAS event
+   of the document the representer + serializer models write has a non-empty name, and that name is the anchor carried by a node event of the
+   same document - a node that is written twice is written as an anchored node and aliases of that anchor.  Proofs/SerializeAnchors.v: the
+   serializer's two traversals (anchor_node, which numbers the nodes met twice, and serialize_node, which writes them) are run side by side:
+   the written nodes are exactly the nodes of the table, the table only grows, and whenever serialize_node writes an alias anchor_node has
+   numbered that node *)
+Theorem C13_dumped_aliases_have_anchors : forall o h root evs, Represent.dump_doc o h root = Represent.ROk evs ->
+  forall a, In (Represent.SAlias a) evs -> a <> [] /\ exists e, In e evs /\ SerializeAnchors.anchor_of_ev e = Some a.
+Proof. exact SerializeAnchors.dumped_aliases_have_anchors. Qed.
+Eval vm_compute in "ASSUME:C13_dumped_aliases_have_anchors"%string. Print Assumptions C13_dumped_aliases_have_anchors.
+(* KIND C13_aliases_of_the_cycle : F *)
+(* non-vacuity: a list that contains itself and a mapping shared twice is written with two anchors and the aliases of exactly those anchors *)
+Example C13_aliases_of_the_cycle :
+  let o := {| Represent.default_style := None; Represent.default_flow := None; Represent.sort_keys := true |} in
+  let h := [Construct.CList [Construct.PInt 1; Construct.PRef 0; Construct.PRef 1; Construct.PRef 1]; Construct.CDict [(Construct.PStr [107%N], Construct.PNone)]] in
+  match Represent.dump_doc o h (Construct.PRef 0) with
+  | Represent.ROk evs => map (fun e => match e with Represent.SAlias a => Some a | _ => None end) evs =
+               [None; None; None; Some (Represent.anchor_name 1); None; None; None; None; Some (Represent.anchor_name 2); None; None] /\
+               map SerializeAnchors.anchor_of_ev evs = [None; Some (Represent.anchor_name 1); None; None; Some (Represent.anchor_name 2); None; None; None; None; None; None]
+  | _ => False
+  end.
+Proof. exact SerializeAnchors.aliases_of_the_cycle. Qed.
 
 (* PARTIAL: the global statement (two places are the same object IFF anchor/alias, for whole documents incl. cycles) is not proved:
    it is decided by the construct correspondence (graphs with identity numbering) and the direct run against identity classes computed
